@@ -374,14 +374,17 @@ Release(c) ==
   LET x == cl[c] IN
   /\ x.pc = "run" /\ x.ctx
   /\ Bug = "cleanup_early" \/ \A p \in x.claims : x.cst[p] \in {"ret", "skip"}
-  /\ cl' = [cl EXCEPT ![c].pc = "incleanup"]
+  /\ cl' = [cl EXCEPT ![c].pc = "incleanup", ![c].hb = IF Bug = "hb_stops_before_cleanup" THEN "off" ELSE @]
   /\ Emitting(IF Bug = "skip_cleanup" THEN <<>> ELSE <<[ev |-> "cleanup", c |-> c]>>)
   /\ UNCHANGED <<cfg, co, fb, tb, script>>
 
+\* (a long Cleanup that waits for the member's heartbeats sees them exactly while the heartbeat loop is still running:
+\* release stops the loop only after Cleanup and the final commit)
 CleanupExit(c) ==
   /\ cl[c].pc = "incleanup"
   /\ cl' = [cl EXCEPT ![c].pc = "final"]
-  /\ UNCHANGED <<cfg, co, fb, tb, script, obs>>
+  /\ Emitting(<<[ev |-> "cleanup_wait", c |-> c, hbs |-> IF cl[c].hb = "on" THEN 3 ELSE 0, expired |-> cl[c].hb # "on"]>>)
+  /\ UNCHANGED <<cfg, co, fb, tb, script>>
 
 \* an OffsetCommit request of the session's offset manager carrying every dirty partition
 CommitReq(c, k, final) ==
